@@ -354,47 +354,8 @@ func checkC04(c *Ctx) {
 		}
 	}
 
-	// ---- R04d symmetric format arms, from the generator's switch statements
-	for _, pkg := range []string{pkgHTTP, pkgClient} {
-		for _, pair := range [][2]string{{"generateTimestampFieldMarshal", "generateTimestampFieldUnmarshal"}, {"generateBytesFieldMarshal", "generateBytesFieldUnmarshal"}} {
-			labels := func(fn string) []string {
-				f := c.P.Func(pkg, "Generator."+fn)
-				if f == nil {
-					return nil
-				}
-				set := map[string]bool{}
-				ast.Inspect(c.P.Decls[f].Body, func(n ast.Node) bool {
-					if cc, ok := n.(*ast.CaseClause); ok {
-						for _, e := range cc.List {
-							// only arms that emit something
-							emits := false
-							for _, st := range cc.Body {
-								ast.Inspect(st, func(m ast.Node) bool {
-									if call, ok := m.(*ast.CallExpr); ok && strings.HasSuffix(types.ExprString(call.Fun), ".P") {
-										emits = true
-									}
-									return true
-								})
-							}
-							if emits {
-								s := types.ExprString(e)
-								set[s[strings.LastIndex(s, ".")+1:]] = true
-							}
-						}
-					}
-					return true
-				})
-				return sortedKeys(set)
-			}
-			a, b := labels(pair[0]), labels(pair[1])
-			if a == nil || b == nil {
-				r.Unres("R04d", pkgShort(pkg)+" "+pair[0]+"/"+pair[1], "", "emitter not found")
-				continue
-			}
-			r.CheckD(strings.Join(a, ",") == strings.Join(b, ","), "R04d", fmt.Sprintf("%s %s and %s handle the same formats", pkgShort(pkg), pair[0], pair[1]), "",
-				fmt.Sprintf("the encoder handles %v, the decoder %v: a value written in a format the decoder does not convert back cannot be read", a, b), map[string]any{"formats": a})
-		}
-	}
+	// ---- R04d symmetric format arms, read from the units reconstructed on the concrete corpus
+	formatArmsSymmetric(c, "R04d")
 
 	// ---- R04c encoding/json on generated messages (typed worlds)
 	checkJSONOnMessages(c, "R04c")
